@@ -52,7 +52,7 @@ CLAIMS = {
          "Trusts go/ssa and types.SizesFor(gc, amd64); zero-signature keys excluded (as the property does).",
          "DESIGN.md §3 C15"),
  "C10": ("loop-shape recognition over SSA (start offset and stride of the history scan as linear forms in len), per-path analysis of one scan iteration (increment exactly on equal-hash paths, stop only when the count is known >= 3, continue only when known < 3), plus re-evaluation of the history/hash rules the count rests on",
-         "Only the scan-coverage clause is decided: the repetition scan visits every history offset at which the position can recur (5,7,9,... from the end) and never the current entry, runs to index 0, starts counting at 1 and returns at 3; and the history it scans is pushed/popped once per make/undo, hashed consistently (C03.R4, C04.R1-R4, C02.R2, C02.R5 re-evaluated). The count for concrete histories and hash collisions are not decided.",
+         "Only the scan-coverage clause is decided: the repetition scan visits every history offset at which the position can recur (5,7,9,... from the end) and never the current entry, runs to index 0, starts counting at 1 and returns at 3; and the history it scans is pushed/popped once per make/undo, emptied only together with loading a position (R4), hashed consistently (C03.R4, C04.R1-R4, C02.R2, C02.R5, C02.R7 re-evaluated). The count for concrete histories and hash collisions are not decided.",
          "Equal hashes are taken to mean equal positions; trusts go/ssa.",
          "DESIGN.md §3 C10"),
  "C09": ("piece-attack pairing by def-use slices, pairing of diagonal/lateral king-ray lookups on the same occupancy (helpers followed with parameters bound to call sites), exclusion-set analysis for simulated captures, mask analysis of two-step pawn pushes, dominance of call-site preconditions, occupancy-argument analysis of king-flight tests",
@@ -64,7 +64,7 @@ CLAIMS = {
          "Trusts go/ssa; bufIx arithmetic is not decided.",
          "DESIGN.md §3 C07"),
  "C08": ("transitive nondeterminism/effect audit over the VTA closure of Search.Go with forward taint of wall-clock values (data and control dependence), guard analysis of the node counter, reader census of the soft limits",
-         "Structural necessary conditions: the only nondeterminism sources reachable from Search.Go are the wall clock (whose values reach only the info line, Counters.Time and the soft-limit test), the two channel polls and the output hand-off; no package-level state is written; the node counter is only incremented, under Nodes == -1 or Counters.Nodes < Nodes; soft limits are consulted only between iterations. Equality of two runs is not decided.",
+         "Structural necessary conditions: the only nondeterminism sources reachable from Search.Go are the wall clock (whose values reach only the info line, Counters.Time and the soft-limit test), the two channel polls and the output hand-off; no package-level state is written; the node counter is only incremented, under Nodes == -1 or Counters.Nodes < Nodes; soft limits are consulted only between iterations and a limit that is not set (<= 0) can never end the search. Equality of two runs is not decided.",
          "VTA over-approximates dynamic calls; std callees outside time/rand/runtime/os are taken to be deterministic.",
          "DESIGN.md §3 C08"),
  "C18": ("SSA loop model of the swap algorithm (tests, back edges, phis), piece-attack pairing, must-dataflow for least-valuable-attacker order with fixpoint meaning of the start markers, parity/balance evaluators for the early exits, occupancy dataflow for x-ray refreshes and entry bookkeeping",
